@@ -19,8 +19,8 @@ PROPS["C01"] = {
     "tie": ["NsyncVerif.Proofs.TieConsts"],
     "oracles": {"exclusion", "exclusion-ann", "panic"},
     "plan": {
-        "quick": [("core", 60, 6), ("cv", 50, 6), ("cv_raw", 30, 6), ("muwait", 50, 6), ("waitn_cv", 30, 6), ("debug", 40, 6), ("cv_rsignal", 60, 8), ("waitn", 80, 8), ("waitn_rep", 60, 8), ("cancel_only", 40, 6), ("longwait_timeout", 30, 6), ("starve_mix", 20, 8)],
-        "thorough": [("cv_rsignal", 600, 16), ("core", 600, 12), ("cv", 500, 12), ("cv_raw", 300, 12), ("muwait", 500, 12), ("waitn_cv", 300, 12), ("debug", 400, 12), ("mixed", 500, 12), ("waitn", 800, 12), ("waitn_rep", 600, 12), ("cancel_only", 400, 12), ("longwait_timeout", 300, 10), ("starve_mix", 200, 12)],
+        "quick": [("core", 60, 6), ("cv", 50, 6), ("cv_raw", 30, 6), ("muwait", 50, 6), ("waitn_cv", 30, 6), ("debug", 40, 6), ("cv_rsignal", 60, 8), ("waitn", 80, 8), ("waitn_rep", 60, 8), ("cancel_only", 40, 6), ("longwait_timeout", 30, 6), ("starve_mix", 20, 8), ("nw_release", 100, 10)],
+        "thorough": [("cv_rsignal", 600, 16), ("core", 600, 12), ("cv", 500, 12), ("cv_raw", 300, 12), ("muwait", 500, 12), ("waitn_cv", 300, 12), ("debug", 400, 12), ("mixed", 500, 12), ("waitn", 800, 12), ("waitn_rep", 600, 12), ("cancel_only", 400, 12), ("longwait_timeout", 300, 10), ("starve_mix", 200, 12), ("nw_release", 1000, 20)],
     },
     "level_text": "Kernel-checked theorems C01_exclusion / C01_reader_excludes_writer / C01_exclusion_ann / C01_word_agrees / C01_store_sound over the MuX model (one step per atomic operation on the mutex word, any number of threads, all interleavings, all acquisition paths incl. timeout/cancel re-acquisition and the plain release-stores); tied to the code by lockstep replay of harness executions of the real sources through the MuX acceptor, with exclusion oracles on the implementation side",
     "level_note": "Proved for the model; model=code is established on the executions replayed (sampled, coverage in evidence). Hint bits are uninterpreted in this layer. SC interleavings at atomic-operation granularity. Client contract assumed (acceptor rejects violations).",
@@ -79,8 +79,9 @@ PROPS["C16"] = {
                  "C16_cv_observer_bounded_hold", "C16_cv_observer_first_load", "C16_cv_observer_never_sleeps", "C16_cv_observer_record_access", "C16_cv_stale_release_rejected"]],
     "layers": ["mux", "cv"],
     "pure": [{"name": "emit_gen", "dir": "emit", "flavours": [""], "layer": "emit"}],
-    "oracles": {"mismatch", "debug-buffer", "exclusion", "exclusion-ann", "panic", "stuck", "crash"},
-    "plan": {"quick": [("debug", 150, 8)], "thorough": [("debug", 1500, 16)]},
+    "oracles": {"mismatch", "debug-buffer", "exclusion", "exclusion-ann", "panic", "stuck", "crash", "steplimit", "lock-missed", "muwait-missed"},
+    "plan": {"quick": [("debug", 150, 8), ("debug_cond", 80, 8)], "thorough": [("debug", 1500, 16), ("debug_cond", 800, 16)]},
+    "family_layers": {"debug_cond": ["mux"]},
     "extra_corpus": ["C01"],
     "level_text": "Buffer half: kernel-checked theorem C16_buffer over the Emit model (emit_init/emit_c/emit_print of debug.c) for every n (incl. 0 and negative) and every NUL-free character stream: writes only inside buf[0..n-1], NUL-terminated for n>=1, ends in '...' when truncated and n>=4, untruncated output is exact; tied by a differential run of the real debug.c (canaries around the buffer, all n in -1..80, states with 0..3 queued waiters). Observer half (mutex): in the MuX protocol a debug-state call is an `observe` call whose only admitted writes toggle MU_SPINLOCK and nothing else; C16_mu_observer proves that a step of an observing thread changes no owner, no client-visible holder, no lock bit and none of the six hint bits (the wake-up bookkeeping), for every reachable state and interleaving, and C01's exclusion theorem quantifies over programs containing observers; tied by lockstep replay of debug-family scenarios (the acceptor rejects any other write by a debug caller — this is how F1 was found) plus exclusion/progress oracles. Observer half (condition variable): the CvFix model contains the debug callers (load; for the *_and_waiters / debugger variants the spinlock loop, the walk over the queue with its loads of `waiting` and `remove_count`, the release store); a step of a thread inside a debug call changes nothing of the cv state but the spinlock bit, the release store writes exactly the word the test-and-set returned, which equals the current word minus the spinlock bit (this uses 'every change of the cv word happens under the spinlock'), so the queue invariant and the no-lost-wake-up theorem of C04 hold in every reachable state of the model WITH observers (C16_cv_observer, C16_cv_observer_release_exact, C16_cv_no_lost_wake); an observer holds the spinlock for a number of own steps bounded by twice the queue length, the non-blocking variants never wait for it, and no observer ever performs a semaphore operation (C16_cv_observer_progress); the records it reads are queued with their owners inside their waits (C16_cv_observer_record_access); a stale release word is rejected (C16_cv_stale_release_rejected). Tied by lockstep replay of the debug family through the CvFix acceptor.",
     "level_note": "Observer half: 'never loses a wake-up / never deadlocks' is proved as 'touches nothing but the spinlock bit' (mutex); the liveness consequence (other threads' progress is unaffected) relies on C02's invariants, which are stated for programs without debug calls — the spinlock is released after finitely many own steps (no loop between the two CASes except the printing). emit_print's varargs formatting is modelled for %s and %i only (all that debug.c uses).",
@@ -153,9 +154,10 @@ PROPS["C02"] = {
                  "C02_fair_termination", "C02_fair_quiescence", "C02_fair_return", "C02_fair_wake", "C02_fair_needs_release", "C02_fair_needs_rc", "C02_fair_needs_arrivals"]],
     "layers": ["muq", "mux"],
     "tie": ["NsyncVerif.Proofs.TieConsts"],
-    "oracles": {"stuck", "steplimit", "try-blocked", "panic", "crash"},
-    "plan": {"quick": [("core", 200, 8), ("core@ps", 200, 10), ("starve@ps", 60, 12), ("muwait", 60, 6), ("cv", 60, 6), ("cv_rsignal", 40, 6)],
-             "thorough": [("core", 2000, 16), ("core@ps", 2000, 16), ("starve@ps", 600, 20), ("muwait", 600, 12), ("cv", 600, 12), ("cv_rsignal", 400, 12), ("mixed", 600, 12)]},
+    "oracles": {"stuck", "steplimit", "try-blocked", "panic", "crash", "lock-missed"},
+    "family_layers": {"nw_release": ["muc", "mux"]},
+    "plan": {"quick": [("core", 200, 8), ("core@ps", 200, 10), ("starve@ps", 60, 12), ("muwait", 60, 6), ("cv", 60, 6), ("cv_rsignal", 40, 6), ("late_looker", 40, 6), ("nw_release", 100, 8)],
+             "thorough": [("core", 2000, 16), ("core@ps", 2000, 16), ("late_looker", 400, 12), ("nw_release", 1000, 16), ("starve@ps", 600, 20), ("muwait", 600, 12), ("cv", 600, 12), ("cv_rsignal", 400, 12), ("mixed", 600, 12)]},
     "level_text": "Kernel-checked theorems over the MuQ model (mu.c lock/rlock/trylock/rtrylock/unlock/runlock/lock_slow/unlock_slow statement by statement: word with interpreted hint bits, waiter queue, per-waiter waiting flag and semaphore, 31 program points, one step per atomic operation; any number of threads; counting and binary semaphores): try-locks are wait-free (at most 3 atomic operations, never a semaphore wait); inductive invariants for spinlock, lock bits, queue and hint bits; every queued sleeper has somebody responsible for waking it (a share holder, a woken thread in flight, or an unlocker mid-scan: C02_responsible); a woken thread's post is never lost (C02_woken_not_lost); and there is NO reachable state in which every thread is idle-holding-nothing or asleep unless nobody is asleep (C02_no_stuck_state); obstruction-freedom with explicit bounds: a thread running alone with the spinlock free completes its acquisition attempt (returns or goes to sleep) within 14 + 3·M own steps and its release within a bound linear in the queue length (C02_solo_progress, C02_solo_acquire, C02_solo_release); every awake thread inside a call has an enabled step (C02_thread_enabled); the leads-to argument in existential-schedule form with an explicit lexicographic ranking: from every reachable state with t asleep there is a finite schedule without barging and without new acquisitions after which t's semaphore has been posted, and one after which every thread is idle holding nothing (C02_leads_to_wake, C02_can_always_complete, C02_stage_monotone); and FAIR TERMINATION itself: in every infinite execution of the model that is weakly fair, in which every holder eventually calls unlock, with finitely many arrivals and finitely many failed CASes on the foreign remove_count word, every call eventually returns — indeed the whole system eventually becomes quiescent with nobody holding anything (C02_fair_termination, C02_fair_quiescence, C02_fair_return, C02_fair_wake), and each of the three side hypotheses is necessary (explicit fair counter-executions C02_fair_needs_release, C02_fair_needs_rc, C02_fair_needs_arrivals). Tied to the code by lockstep replay of harness executions of the real mu.c through the MuQ acceptor (every event: op kind, order, location, expected/new/observed values) plus the global-progress oracle on the real executions, which also runs the full alphabet (mu_wait, cv, wait_n).",
     "level_note": "Scope of the theorems is the property's own quantifier (core operations on one mutex; a mutex used with mu_wait/cv/wait_n/debug is out of MuQ's scope and covered by lockstep through MuX plus the progress oracle only). 'Eventually returns' is a theorem about the model's infinite executions (C02_fair_termination) under weak fairness + the property's own hypothesis (holders release) + two side hypotheses that the formalisation shows to be necessary: finitely many failed CASes on the foreign remove_count word (the acceptor admits such a failure whenever the log reports one), and finite arrivals (a thread can be overtaken between its load and its enqueue CAS by lock/unlock pairs on the fast paths for ever; nsync bounds barging once a waiter has escalated — C14 — but the statement is about arbitrary arrivals). Waiter-pool allocation is an allocator contract.",
 }
@@ -165,7 +167,7 @@ PROPS["C14"] = {
     "layers": ["muq", "mux"],
     "tie": ["NsyncVerif.Proofs.TieConsts"],
     "oracles": {"stuck", "steplimit", "panic", "starved"},
-    "plan": {"quick": [("core", 150, 8), ("starve", 40, 10), ("starve_cv", 40, 10), ("starve_mix", 20, 8)], "thorough": [("core", 1500, 16), ("starve", 400, 20), ("starve_cv", 400, 20), ("starve_mix", 200, 12)]},
+    "plan": {"quick": [("core", 150, 8), ("starve", 40, 10), ("starve_cv", 40, 10), ("starve_mix", 20, 8), ("late_looker", 30, 6)], "thorough": [("core", 1500, 16), ("late_looker", 300, 12), ("starve", 400, 20), ("starve_cv", 400, 20), ("starve_mix", 200, 12)]},
     "family_layers": {"starve_cv": ["cv", "mux"], "starve_mix": ["muc", "mux"]},
     "level_text": "Kernel-checked theorems over the MuQ model: a thread inside lock_slow has its long-wait flag set exactly from its 30th wake-up on (C14_escalates); it then sets MU_LONG_WAIT in every enqueue and re-queues at the FRONT (C14_sets_bit, C14_requeue_front); while the bit (or, for fresh readers, MU_WRITER_WAITING) is set no step of a thread that has not itself waited acquires — fast paths, try-locks and lock_slow with clear = 0 (C14_blocks_fresh); the bit is cleared only by the acquiring CAS of a thread that itself escalated (C14_cleared_only_by_long_waiter); a woken thread is stopped only by real lock conflicts (C14_woken_ignores_hints). A directed corpus schedule drives the real library through 30 wake-ups of a victim and checks the same steps in lockstep; the harness measures the number of sleeps of a victim inside one lock call under adversarial barging.",
     "level_note": "The prose bound ('sent back to sleep only a bounded number of times') is proved as the mechanism above; with several escalated waiters one of them may clear the bit while another still sleeps (it re-raises it at its next enqueue), so the numeric bound is measured by the harness oracle (sleeps in one call <= 30 + number of fibers + margin), not proved in general.",
@@ -201,10 +203,10 @@ PROPS["C04"] = {
                  "C04_signal", "C04_broadcast", "C04_broadcast_unlinks_all", "C04_no_lost_wake", "C04_f3_schedule_fixed", "C04_f3_old_behaviour_rejected"]],
     "layers": ["cv", "mux"],
     "oracles": {"cv-woken-asleep", "swallowed-wakeup", "dead-object", "stuck", "steplimit", "early-timeout", "bad-cancel", "bad-result", "panic", "crash"},
-    "plan": {"quick": [("cv", 120, 8), ("cv_raw", 60, 8), ("cv_rsignal", 60, 8), ("waitn_cv", 80, 8), ("cv_rwr", 60, 6), ("cv@ps", 80, 8), ("waitn_cv@ps", 60, 8), ("muc_cv", 80, 8)],
-             "thorough": [("cv", 1200, 16), ("cv_raw", 600, 16), ("cv_rsignal", 600, 16), ("waitn_cv", 800, 16), ("cv_rwr", 600, 12), ("cv@ps", 800, 16), ("waitn_cv@ps", 600, 16), ("muc_cv", 800, 16)]},
+    "plan": {"quick": [("cv", 120, 8), ("cv_raw", 60, 8), ("cv_rsignal", 60, 8), ("waitn_cv", 80, 8), ("waitn_atomic", 80, 8), ("cv_rwr", 60, 6), ("cv@ps", 80, 8), ("waitn_cv@ps", 60, 8), ("muc_cv", 80, 8)],
+             "thorough": [("cv", 1200, 16), ("cv_raw", 600, 16), ("cv_rsignal", 600, 16), ("waitn_cv", 800, 16), ("waitn_atomic", 800, 16), ("cv_rwr", 600, 12), ("cv@ps", 800, 16), ("waitn_cv@ps", 600, 16), ("muc_cv", 800, 16)]},
     "harness_args": ["checkplain=1"],
-    "family_layers": {"muc_cv": ["cv", "muc", "mux"]},
+    "family_layers": {"waitn_atomic": ["waitn", "cv", "mux"], "muc_cv": ["cv", "muc", "mux"]},
     "level_text": "Kernel-checked theorems over the CvFix model (cv.c — with the repair of defect F3 — and sem_wait.c statement by statement: cv word, queue, pooled waiter records with remove_count and bare nsync_waiter_s records of nsync_wait_n, private to-wake lists, transfer to the mutex queue; any number of threads; both semaphore flavours): queue/non-empty-bit invariant, spinlock exclusion, enqueue-before-release (wait is atomic w.r.t. wakers), signal unlinks the first waiter and, if it is a reader, every reader plus at most one other, broadcast unlinks every waiter enqueued before its first load, an unlinked record is woken (flag cleared and semaphore posted) or its waker is still in flight (no lost wake-up), every wait instance is unlinked at most once, by a waker xor by itself — for ALL record kinds (C04_unlink_once) —, a cv wait returns non-zero only if it unlinked itself, and for nsync_wait_n cv_dequeue reports 'still enqueued' exactly when the record was unlinked by its owner (a waker-unlinked record is reported as ready: C04_outcome). Tied to the code by lockstep replay of the cv / cv_raw / cv_rsignal / waitn_cv families (incl. cancellable waits) through the CvFix acceptor, with the swallowed-wake-up and dead-object oracles on the implementation side.",
     "level_note": "On the pinned tree C04_unlink_once / C04_outcome were false for nsync_wait_n records (defect F3, now fixed in /repo: the old Cv model with the refutation is kept in the library as Props/C04.lean, the F3 schedule is a corpus regression). Transferred waiters are handed to the mutex queue (C02). The mutex is abstract in this layer. Fair termination is a paper step.",
 }
@@ -317,9 +319,9 @@ PROPS["C06"] = {
     "layers": ["muc", "mux"],
     "family_layers": {"muc_cv": ["cv", "muc", "mux"]},
     "tie": ["NsyncVerif.Proofs.TieConsts"],
-    "oracles": {"cv-woken-asleep", "cond-under-lock", "muwait-result", "muwait-missed", "stuck", "steplimit", "panic", "crash", "exclusion", "exclusion-ann", "early-timeout", "bad-cancel", "bad-result"},
-    "plan": {"quick": [("muc", 160, 8), ("muwait", 100, 8), ("timed_contended", 80, 10), ("muc_eqmix", 100, 10), ("muc_cv", 80, 8), ("longwait_timeout", 30, 6), ("starve_mix", 20, 8)],
-             "thorough": [("muc", 1600, 16), ("muwait", 1000, 16), ("timed_contended", 800, 20), ("muc_eqmix", 1000, 20), ("muc_cv", 800, 16), ("longwait_timeout", 300, 10), ("starve_mix", 200, 12)]},
+    "oracles": {"cv-woken-asleep", "cond-under-lock", "muwait-result", "muwait-missed", "lock-missed", "stuck", "steplimit", "panic", "crash", "exclusion", "exclusion-ann", "early-timeout", "bad-cancel", "bad-result"},
+    "plan": {"quick": [("muc", 160, 8), ("muwait", 100, 8), ("timed_contended", 80, 10), ("muc_eqmix", 100, 10), ("muc_cv", 80, 8), ("longwait_timeout", 30, 6), ("starve_mix", 20, 8), ("nw_release", 80, 8)],
+             "thorough": [("muc", 1600, 16), ("muwait", 1000, 16), ("timed_contended", 800, 20), ("muc_eqmix", 1000, 20), ("muc_cv", 800, 16), ("longwait_timeout", 300, 10), ("starve_mix", 200, 12), ("nw_release", 800, 16)]},
     "level_text": "Kernel-checked theorems over the MuC model (mu.c + mu_wait.c — as repaired by ace4c21 — statement by statement: condition records, same-condition rings, unlock_slow's scan with condition evaluation, MU_CONDITION / MU_ALL_FALSE hints, timeouts and cancellations, unlock_without_wakeup; any number of threads): every condition is evaluated by a thread that owns a share of the lock or the writer bit, never concurrently with another thread's write critical section, and it is the condition the queue record prescribes with the value the protected data gives (C06_cond_under_lock); the lock / spinlock / queue invariants (C06_inv_lock, C06_inv_spin, C06_inv_queue); the ring invariant is inductive and the skip over a same-condition ring passes only waiters whose condition is false on the current data (C06_samecond_ring_sound, C06_skip_sound); both hint bits mean what common.h says — MU_CONDITION clear: no queued waiter has a condition; MU_ALL_FALSE set: every queued condition is false on the data as they were when the current write section began (C06_hint, C06_hint_all_false); NO MISSED CONDITION (C06_no_missed_cond): in every reachable state in which a queued waiter's condition is true (and unlock_without_wakeup's contract was kept) some thread is responsible for it — it holds a share, or is an unlocker / a woken thread in flight, or has timed out and is re-acquiring (C06_true_cond_has_responsible); MU_DESIG_WAKER is never set without such a thread (C06_desig_waker_justified); a release by unlock_without_wakeup leaves asleep only waiters whose conditions are false on the data, or somebody else is responsible (C06_without_wakeup_sound, C06_without_wakeup_no_missed); NO STUCK STATE (C06_no_stuck_state): in a reachable quiescent state every sleeper is a condition waiter that is queued with a condition that is false — in particular nobody sleeps inside nsync_mu_lock / rlock; this rests on 'the hints are never stale' for the model with conditional critical sections: MU_WRITER_WAITING set implies a writer that justifies it (C06_writer_waiting_justified), MU_LONG_WAIT set implies a long waiter queued or in flight (C06_long_wait_justified), and every queued sleeper whose condition is true or absent has somebody responsible (C06_responsible). Tied to the code by lockstep replay of the muc / muwait / muc_eqmix / timed_contended families through the MuC acceptor — which checks, on every explored execution, which conditions the scan evaluates, which waiters it wakes and every word value — and by the interpreter's oracles: stuck, muwait-missed (a waiter asleep at quiescence although its condition is true and the mutex is free), cond-under-lock.",
     "level_note": "Found while proving these invariants: defect F8 (mu_wait.c decided from a stale word whether its release must wake waiters — repaired in /repo, ace4c21; what the pinned code did is recorded by C06_no_missed_cond_old_code_witness / C06_no_stuck_state_old_code_witness against the old rule, and by the corpus regressions). Every `_full` statement of Props/C06.lean is now proved, or refuted and proved in corrected form. The literal C06_without_wakeup_sound_full is refuted as stated (the fast path is also taken under MU_DESIG_WAKER) and proved in corrected form. 'Rings are maximal runs' is refuted — harmless. 'Returns once its condition has been made true' is the safety form (somebody responsible exists); fair termination is a paper step."
 }
@@ -331,7 +333,7 @@ for k in ("C05", "C06", "C11", "C13"):
 # the ties of every layer it replays (incl. the per-family ones) and of the layers its theorems are about.
 LAYER_SRC = {"pool": "Pool", "muq": "Muq", "muc": "Muc", "cv": "Cv", "cvmu": "Cv", "waitn": "Waitn", "semwait": "Semwait", "note": "Note", "counter": "Counter",
              "once": "Once", "futex": "Futex", "time": "Time", "emit": "Emit", "dll": "Dll", "deadline": "Deadline"}
-EXTRA_SRC = {"C01": ["Muc"], "C03": ["Muq", "Note"], "C13": ["Muq", "Note"], "C08": ["Semwait"], "C15": ["Futex", "Time"], "C16": ["Emit"], "C17": ["Dll"], "C18": ["Time"], "C14": ["Muq", "Cv"], "C02": ["Muq"]}
+EXTRA_SRC = {"C04": ["Waitn"], "C01": ["Muc"], "C03": ["Muq", "Note"], "C13": ["Muq", "Note"], "C08": ["Semwait"], "C15": ["Futex", "Time"], "C16": ["Emit", "Muq", "Muc"], "C17": ["Dll"], "C18": ["Time"], "C14": ["Muq", "Cv"], "C02": ["Muq", "Muc"]}
 for _pid, _spec in PROPS.items():
     _ls = list(_spec.get("layers", []))
     for _v in _spec.get("family_layers", {}).values():
